@@ -1301,7 +1301,11 @@ package gocql
 //@   props C05 C18 C20
 //@   count_calls Name
 //@   requires s.conn != nil && ctx != nil && s.conn.cfg != nil && conn_ok(s.conn)
-//@   before[C18] write: s.conn.compressor != nil ==> s.conn.compressor == old(s.conn.compressor) && haskey(m, "COMPRESSION")
+// a compressor stays on the connection only if the server advertised it by name, and then STARTUP names it;
+// without a compressor STARTUP carries no COMPRESSION option
+//@   before[C18] write: s.conn.compressor != nil ==> s.conn.compressor == old(s.conn.compressor) && haskey(m, "COMPRESSION") && m["COMPRESSION"] == Name_ret0 && Name_calls == 1
+//@   before[C18] write: s.conn.compressor != nil ==> exists(k, 0 <= k && k < old(len(supported["COMPRESSION"])), old(supported["COMPRESSION"][k]) == Name_ret0)
+//@   before[C18] write: s.conn.compressor == nil ==> !haskey(m, "COMPRESSION")
 //@   loop 0: invariant !haskey(m, "COMPRESSION") && Name_calls == 1 && s.conn.compressor == old(s.conn.compressor) && s.conn.compressor != nil
 //@   loop 0: exit haskey(m, "COMPRESSION") ==> exists(k, 0 <= k && k < old(len(supported["COMPRESSION"])), old(supported["COMPRESSION"][k]) == Name_ret0)
 
@@ -1766,7 +1770,8 @@ package gocql
 //@ func encVints
 //@   props C12 C02
 //@   ensures len(result) == vint_size(zigzag(int64(months))) + vint_size(zigzag(int64(seconds))) + vint_size(zigzag(nanos))
-//@   ensures vint_uval(result, 0) == zigzag(int64(months)) && vint_uval(result, vint_size(zigzag(int64(months)))) == zigzag(int64(seconds))
+//@   ensures vint_uval(result, 0) == zigzag(int64(months))
+//@   ensures vint_uval(result, vint_size(zigzag(int64(months)))) == zigzag(int64(seconds))
 //@   ensures vint_uval(result, vint_size(zigzag(int64(months))) + vint_size(zigzag(int64(seconds)))) == zigzag(nanos)
 
 //@ func marshalDuration
@@ -2575,6 +2580,8 @@ package gocql
 //@   at_return[C15] typeis(resp, *resultRowsFrame) && iter.next != nil ==> same(iter.next.qry.stmt, qry.stmt) && same(iter.next.qry.values, qry.values) && iter.next.qry.pageSize == qry.pageSize && iter.next.qry.cons == qry.cons && iter.next.qry.session == qry.session && iter.next.qry.disableAutoPage == qry.disableAutoPage
 //@   at_return[C15] typeis(resp, *resultRowsFrame) && iter.next != nil ==> len(iter.next.qry.pageState) == len(x.meta.pagingState) && forall(k, 0 <= k && k < len(x.meta.pagingState), iter.next.qry.pageState[k] == x.meta.pagingState[k])
 //@   at_return[C15] typeis(resp, *resultRowsFrame) ==> iter.numRows == x.numRows && iter.framer == framer
+// the state the iterator exposes for manual paging (Iter.PageState) is the one this page carried, whichever metadata decodes the rows
+//@   at_return[C15] typeis(resp, *resultRowsFrame) && (!params.skipMeta || info != nil) ==> len(iter.meta.pagingState) == len(x.meta.pagingState) && forall(k, 0 <= k && k < len(x.meta.pagingState), iter.meta.pagingState[k] == x.meta.pagingState[k])
 // C04: the iterator decodes the rows with the metadata of this response, or - when the request asked the server
 // to skip it - with the result metadata received when the statement was prepared, and the paging state of this response
 //@   at_return[C04] typeis(resp, *resultRowsFrame) && !params.skipMeta ==> same(iter.meta.columns, x.meta.columns) && iter.meta.actualColCount == x.meta.actualColCount && iter.meta.colCount == x.meta.colCount && same(iter.meta.pagingState, x.meta.pagingState)
@@ -3319,6 +3326,12 @@ package gocql
 //@   props C19
 //@   ensures uuid_version(u) == 1 ==> result == uuid_ts(u)
 //@   ensures uuid_version(u) != 1 ==> result == 0
+
+// the instant of a version-1 UUID: whole seconds and the 100 ns remainder of its timestamp, rebased from
+// 15 Oct 1582 to the Unix epoch (exact for the whole 60-bit range: no nanosecond count since 1970 is formed)
+//@ func (u UUID) Time
+//@   props C19
+//@   ensures uuid_version(u) == 1 ==> time_unix(result) == uuid_ts(u)/10000000 + timeBase && time_nsec(result) == int((uuid_ts(u) % 10000000) * 100)
 
 //@ func (u UUID) Clock
 //@   props C19
